@@ -17,14 +17,35 @@ PARTIAL = ('failed WRITES: the clause "once the cause is removed the same file a
            'failed write leaves')
 
 
+def _drop_dangling(x, rejected):
+    """References to objects whose creation was rejected are None in the program as it ran: make that explicit, so that the
+    program without the rejected calls assigns None as well (instead of whatever object now has that index)."""
+    if isinstance(x, dict):
+        if x.get('t') == 'ref' and x.get('i') in rejected:
+            x.clear()
+            x['t'] = 'none'
+        else:
+            for v in x.values():
+                _drop_dangling(v, rejected)
+    elif isinstance(x, list):
+        for v in x:
+            _drop_dangling(v, rejected)
+
+
 def without_rejected(prog, outs):
     """The program with the rejected creating / assigning calls removed (references re-indexed)."""
     new = []
     old2new = {}
     created_old = created_new = 0
+    rejected = set()
     for s, o in zip(prog, outs):
         s = copy.deepcopy(s)
+        _drop_dangling({k: v for k, v in s.items() if k in ('kw', 'channels', 'raw')}, rejected)
+        if s['op'] == 'newfile':
+            rejected = set()
         if s['op'] in ('origin', 'add', 'channel', 'frame'):
+            if o[0] != 'ok':
+                rejected.add(created_old)
             if o[0] == 'ok':
                 old2new[created_old] = created_new
                 created_new += 1
